@@ -267,6 +267,205 @@ def check_c05(tier):
     return times_family("C05", tier, runs, [])
 
 
+# ---------------------------------------------------------------------------------------------
+# E1, placement explorer
+
+LLVM_TRIPLE = {"a64": "aarch64", "a32": "armv7", "t32": "thumbv7"}
+
+
+def llvm_crosscheck(words):
+    """words: 'arch|hexbytes|rendering' strings produced by the harness decoders; every one is
+    disassembled by llvm-mc-14 and the text compared.  Returns the number cross-checked."""
+    by = {}
+    for w in set(words):
+        arch, hx, txt = w.split("|", 2)
+        by.setdefault(arch, []).append((hx, txt))
+    n = 0
+    for arch, items in by.items():
+        items.sort()
+        inp = "\n".join(" ".join("0x" + hx[i:i + 2] for i in range(0, len(hx), 2)) for hx, _ in items) + "\n"
+        r = subprocess.run(["llvm-mc-14", f"--triple={LLVM_TRIPLE[arch]}", "--disassemble"], input=inp, capture_output=True, text=True)
+        if r.returncode != 0:
+            raise MachineryError(f"llvm-mc-14 failed for {arch}: {r.stderr[-500:]}")
+        lines = [l.strip() for l in r.stdout.splitlines() if l.strip() and not l.strip().startswith(".text")]
+        if len(lines) != len(items):
+            raise MachineryError(f"llvm-mc-14 decoded {len(lines)} of {len(items)} {arch} words ({r.stderr[-300:]})")
+        for (hx, txt), line in zip(items, lines):
+            if " ".join(line.split()) != " ".join(txt.split()):
+                raise MachineryError(f"decoder cross-check: {arch} bytes {hx}: harness decoder says {txt!r}, llvm-mc-14 says {line!r}")
+            n += 1
+    return n
+
+
+def e1_run(check, tier, features=True):
+    """Build e1 (with the private-access feature when the mounted tree allows it) and run all shards."""
+    reduced = []
+    try:
+        build(["e1"], features=["e1/priv_access"])
+    except MachineryError as e:
+        build(["e1"])
+        reduced.append("priv_access accessors do not compile against this tree: encoder-level sub-domains (entry displacements beyond the allocator's window) skipped")
+    outs = run_engine_sharded(bin_path("e1"), [check, "--tier", tier], NCPU, timeout=3000)
+    m = {"cases": 0, "transitions": 0, "tags": {}, "traces": {}, "words": set(), "violations": [], "counts": {}, "samples": [], "domain": outs[0].get("domain")}
+    for o in outs:
+        m["cases"] += o["cases"]
+        m["transitions"] += o["transitions"]
+        for k, n in o["tags"].items():
+            m["tags"][k] = m["tags"].get(k, 0) + n
+        for k, n in o["trace_classes"].items():
+            m["traces"][k] = m["traces"].get(k, 0) + n
+        m["words"].update(o["words"])
+        m["violations"] += o["violations"]
+        for c in o["violation_counts"]:
+            k = (c["prop"], c["key"])
+            m["counts"][k] = m["counts"].get(k, 0) + c["count"]
+        m["samples"] += o["samples"][:1]
+    return m, reduced
+
+
+def e1_merge(ms):
+    m = {"cases": 0, "transitions": 0, "tags": {}, "traces": {}, "words": set(), "violations": [], "counts": {}, "samples": [], "domain": [x["domain"] for x in ms]}
+    for x in ms:
+        m["cases"] += x["cases"]
+        m["transitions"] += x["transitions"]
+        for k, n in x["tags"].items():
+            m["tags"][k] = m["tags"].get(k, 0) + n
+        for k, n in x["traces"].items():
+            m["traces"][k] = m["traces"].get(k, 0) + n
+        m["words"] |= x["words"]
+        m["violations"] += [dict(v, _check=x["_check"]) for v in x["violations"]]
+        for k, n in x["counts"].items():
+            m["counts"][k] = m["counts"].get(k, 0) + n
+        m["samples"] += x["samples"][:2]
+    return m
+
+
+def e1_family(prop, tier, check, take_props, crash_is_violation, need_tags, assumptions_extra, explanation, extra_results=None):
+    t0 = time.time()
+    mi = mount()
+    checks_ = check if isinstance(check, (list, tuple)) else [check]
+    ms = []
+    reduced = []
+    for c in checks_:
+        m1, reduced = e1_run(c, tier)
+        m1["_check"] = c
+        ms.append(m1)
+    m = e1_merge(ms)
+    viols = []
+    undecided = []
+    for v in m["violations"]:
+        p = v["prop"]
+        if p == "MACHINERY":
+            raise MachineryError(f"{v['key']}: {v['what']} (case {json.dumps(v['case'])[:300]})")
+        if p == "UNDECIDED":
+            undecided.append(v)
+            continue
+        if p in take_props or (p == "*" and crash_is_violation):
+            key = v["key"]
+            viols.append({"key": key, "what": v["what"], "engine": "e1", "args": [v.get("_check", checks_[0])], "case": v["case"]})
+    for (p, k), n in m["counts"].items():
+        have = [v for v in viols if v["key"] == k]
+        if have and n > len(have):
+            viols += [dict(have[0]) for _ in range(min(n, 1000) - len(have))]
+    if undecided and not viols:
+        raise MachineryError(f"undecided: {undecided[0]['what']}")
+    for t in ([] if viols else need_tags):
+        if not any(k.startswith(t) for k in m["tags"]):
+            if t.startswith("priv") and reduced:
+                continue
+            raise MachineryError(f"vacuous exploration: no placement exercised branch '{t}' (tags seen: {sorted(m['tags'])})")
+    crossed = llvm_crosscheck(m["words"]) if m["words"] else 0
+    cov = {
+        "states": m["cases"] if checks_ == ["c01"] else m["transitions"],
+        "transitions": m["transitions"],
+        "traces_validated_against_impl": m["tags"].get("real-call", 0),
+        "samples": m["samples"][:4],
+        "placements": m["transitions"],
+        "branch_coverage": m["tags"],
+        "distinct_emitted_sequences": m["traces"],
+        "decoder_crosschecked": crossed,
+        "bound": m["domain"],
+        "reduced": reduced,
+        "exhaustive": True,
+        "explanation": explanation,
+    }
+    if extra_results:
+        ev, ecov = extra_results(tier, mi)
+        viols += ev
+        for k, v in ecov.items():
+            if k in ("states", "transitions", "traces_validated_against_impl") and isinstance(v, int):
+                cov[k] = cov.get(k, 0) + v
+            elif k == "samples":
+                cov["samples"] = cov["samples"][:3] + v[:2]
+            else:
+                cov[k] = v
+    return finish(prop, tier, t0, cov, viols, COMMON_ASSUMPTIONS + assumptions_extra, mi)
+
+
+E1_ASSUME = [
+    "the OS model (hinted anonymous mmap: honour a free hint rounded down to its page, otherwise place elsewhere; munmap page-rounded) stands for Linux; its default answers were probed against this host's kernel, its deviations are the nondeterminism being enumerated",
+    "the x86-64 abstract machine is validated on every placement whose fake is mappable by really calling the patched function (coverage.traces_validated_against_impl); the ARM decoders are cross-checked word by word with llvm-mc-14 (coverage.decoder_crosschecked)",
+]
+
+
+def check_c01(tier):
+    return e1_family("C01", tier, "c01", ("C01",), True,
+                     ["entry-straddles-page", "trampoline:long", "trampoline:rel32", "trampoline:bool-stub", "refused", "real-call"],
+                     E1_ASSUME + ["Windows-style long entry patches and the macOS patch_function are not compiled on this host"],
+                     "states = placements (function address incl. in-page offset x trampoline page displacement x fake address x install kind) each run through the real x86-64 installer under the OS model; transitions = install, call, remove; the whole structured address domain listed under bound was enumerated")
+
+
+def check_c13(tier):
+    return e1_family("C13", tier, ["c01", "probe"], ("C13",), False,
+                     ["trampoline:long", "trampoline:rel32", "entry:rel32"],
+                     E1_ASSUME + ["ymm upper halves are probed when the host has AVX (it does); x87/MXCSR state is not probed",
+                                  "AArch64 / AArch32 register discipline of the emitted sequences is judged by C15 / C16"],
+                     "states = every placement of the C01 domain: the instruction sequence between caller and fake is run on the x86-64 abstract machine with a fully symbolic register file (write set, stack delta, reads of caller registers), so the verdict holds for all register and stack contents; plus host probes: an assembly caller loads 6 integer and 8 vector argument registers, 4 stack slots and the callee-saved set with walking patterns (6 rounds), an assembly fake records them, for the rel32 and the long trampoline form and a far position-independent fake")
+
+
+def c10_extra(tier, mi):
+    """History part: several forced booleans (different targets, different values) alive at once."""
+    build(["e3m", "e3r"])
+    depth = 4 if tier == "quick" else 5
+    args = ["hist", "--depth", str(depth), "--per-child", "256"]
+    outs = run_engine_sharded(bin_path("e3"), args, NCPU, timeout=1500)
+    m = _merge_hist(outs)
+    viols = []
+    for v in m["violations"]:
+        if v["prop"] == "C10":
+            viols.append({"key": v["key"], "what": v["what"], "engine": "e3", "args": ["hist"], "case": {"history": v["history"], "step": v["step"] & 0xFFF}})
+    return viols, {"states": m["prefixes"], "transitions": m["steps"], "histories_with_forced_booleans": m["histories"], "samples": m["samples"][:2]}
+
+
+def check_c10(tier):
+    return e1_family("C10", tier, ["c01", "probe", "c15"], ("C10",), False,
+                     ["trampoline:bool-stub", "bool-probe"],
+                     E1_ASSUME + ["AArch32 forwards to Rust functions return_true/return_false; only the branch is the injector's (C16)"],
+                     "stub part: both values x every placement of the C01 domain on the x86-64 abstract machine (returns with al = value, write set = {rax}, stack balanced) and by really calling the stub; AArch64 stub on the A64 machine; host assembly probe with walking register patterns; all install histories up to the depth with two boolean targets and both values alive together",
+                     extra_results=c10_extra)
+
+
+def check_c15(tier):
+    return e1_family("C15", tier, "c15", ("C15",), True,
+                     ["installed", "mac:adrp-add-br", "mac:direct-branch"],
+                     E1_ASSUME + ["no AArch64 hardware: the verdict is the A64 abstract machine's; macOS common.rs is not compiled, the macOS entry encoder is"],
+                     "states = AArch64 installations / encoder calls judged (trampoline: every 16-bit value in every chunk position x 4 backgrounds + boundary cross product; entry: word-aligned displacements through the real allocator path, beyond-window displacements through the private encoder; macOS ADRP/ADD/BR encoder over page differences x low-12 boundary values)")
+
+
+def check_c16(tier):
+    return e1_family("C16", tier, "c16", ("C16",), True,
+                     ["installed:A32", "installed:T32-0", "installed:T32-2"],
+                     E1_ASSUME + ["no 32-bit ARM hardware: the verdict is the A32/T32 abstract machine's"],
+                     "states = 32-bit ARM installations judged: 3 entry cases x in-page positions (incl. page-straddling) x fake addresses (each byte exhaustively against 3 backgrounds, both instruction-set states) x 3 target bases")
+
+
+def check_c11(tier):
+    return e1_family("C11", tier, "c11", ("C11",), True,
+                     ["installed", "refused", "full-scan-mmap-calls"],
+                     E1_ASSUME,
+                     "states = allocator scans judged: back-end x page size x target address class x in-page offset x neighbourhood layout (empty, full, full except one free page at each listed offset) x single/double deviations of the kernel's answers (MAP_FAILED, in-window page, far page)")
+
+
 CHECKS = {
     "C02": check_c02,
     "C03": check_c03,
@@ -275,6 +474,12 @@ CHECKS = {
     "C07": check_c07,
     "C06": check_c06,
     "C05": check_c05,
+    "C01": check_c01,
+    "C15": check_c15,
+    "C16": check_c16,
+    "C11": check_c11,
+    "C13": check_c13,
+    "C10": check_c10,
 }
 
 
@@ -311,5 +516,23 @@ def replay(pid, path):
         if rc:
             print(f"VIOLATION property={pid} replay={path}")
         return rc
+    if eng == "e1":
+        try:
+            build(["e1"], features=["e1/priv_access"])
+        except MachineryError:
+            build(["e1"])
+        r = subprocess.run([bin_path("e1")] + case["args"] + ["--replay", path], capture_output=True, text=True, cwd=WORK, env=env_offline())
+        if r.returncode != 0:
+            print(f"MACHINERY-ERROR replay engine e1 exited {r.returncode}: {r.stderr[-500:]}")
+            return 2
+        o = json.loads(r.stdout.strip().splitlines()[-1])
+        hits = [v for v in o["violations"] if v["prop"] in (pid, "*")]
+        for v in hits[:4]:
+            print(f"  {v['prop']} {v['key']}: {v['what']}")
+        if hits:
+            print(f"VIOLATION property={pid} replay={path}")
+            return 1
+        print("[vcheck] replay: no violation")
+        return 0
     print(f"vcheck: cannot replay engine {eng}")
     return 2
